@@ -502,8 +502,14 @@ def global_accesses(fn, names):
     return out
 
 
-def top_function(fx, fn):
-    """Enclosing non-lambda function of a lambda body."""
+_ROOT_CACHE = {}
+
+
+def top_function(fx, fn, through_helpers=True):
+    """The function a site is attributed to in the rules' tables: the enclosing non-lambda function of a lambda
+    body and - when that function is a helper no rule knows by name (non-public member or file-local function, see
+    rules/inline.py) all of whose callers lead to ONE known function - that function. Extracting lines of a tabled
+    function into such a helper therefore leaves every table entry where it was."""
     seen = 0
     while fn.kind == 'lambda' and fn.parent_usr and seen < 10:
         ps = fx.by_usr(fn.parent_usr)
@@ -511,7 +517,46 @@ def top_function(fx, fn):
             break
         fn = ps[0]
         seen += 1
-    return fn
+    if not through_helpers:
+        return fn
+    key = (id(fx), fn.key())
+    if key not in _ROOT_CACHE:
+        _ROOT_CACHE[key] = fn
+        _ROOT_CACHE[key] = _helper_root(fx, fn, ()) or fn
+    return _ROOT_CACHE[key]
+
+
+def _unknown_helper(fx, g):
+    import inline
+    if g.kind in ('lambda', 'ctor', 'dtor', 'conversion') or g.d.get('virtual') or not g.d.get('cfg'):
+        return False
+    if not g.file.startswith(REPO_PREFIX_()):
+        return False
+    if g.norm.split('::')[-1] in inline.anchor_names():
+        return False
+    if g.cls:
+        return g.d.get('access') in ('private', 'protected')
+    return g.file.endswith('.cpp')
+
+
+def REPO_PREFIX_():
+    import simlib
+    return simlib.REPO_PREFIX
+
+
+def _helper_root(fx, g, stack):
+    if not _unknown_helper(fx, g) or g.usr in stack or len(stack) > 4:
+        return None
+    roots = {}
+    for cf, c in fx.callers.get(g.usr, []):
+        if c.get('obj') is not None and not _is_this_like(c['obj']):
+            return None             # called on another object: not a mere extraction
+        t = top_function(fx, cf, through_helpers=False)
+        r = _helper_root(fx, t, stack + (g.usr,)) or t
+        roots[r.key()] = r
+    if len(roots) != 1:
+        return None
+    return list(roots.values())[0]
 
 
 def writers_of_field(fx, field):
@@ -979,8 +1024,8 @@ def nonempty_test(fn, atom, pol, container):
 def is_helper_call(fn, c):
     """A direct call (on this object or a free function) to a repository function with a body: candidate for
     summarising/inlining when a rule looks for something the caller used to do itself."""
-    if FX is None or not is_node(c) or c['k'] != 'call' or not c.get('usr') or 'opc' in c:
-        return None
+    if FX is None or not is_node(c) or c['k'] != 'call' or not c.get('usr') or 'opc' in c or c.get('inlined'):
+        return None       # (a call whose body is already spliced into this view is not descended into again)
     if c.get('obj') is not None and not _is_this_like(c['obj']):
         return None
     gs = [g for g in FX.by_usr(c['usr']) if g.cfg is not None]
